@@ -15,7 +15,8 @@ enum { NV = 3 };
 static Xml::Variant* V[NV + 1] = {0, 0, 0, 0};
 
 void drv_init(int, char**) { g_op_timeout = 3; }
-void drv_fini() { for(int i = 1; i <= NV; ++i) { delete V[i]; V[i] = 0; } }
+static void drop_parser();
+void drv_fini() { drop_parser(); for(int i = 1; i <= NV; ++i) { delete V[i]; V[i] = 0; } }
 void drv_reset() { drv_fini(); for(int i = 1; i <= NV; ++i) V[i] = new Xml::Variant; }
 
 static void put_bytes(const unsigned char* p, long n)
@@ -130,6 +131,9 @@ static void observe_slots(const char* op, int i, int j, const unsigned char* s, 
   j_end();
 }
 
+static Xml::Parser* g_parser = 0;
+static void drop_parser() { delete g_parser; g_parser = 0; }
+
 void drv_apply(const char* op)
 {
   if(!strcmp(op, "parse"))
@@ -137,7 +141,9 @@ void drv_apply(const char* op)
     int n; unsigned char* d = tok_bytes(&n, 1);
     int ok, line = 0, col = 0;
     {
-      Xml::Parser parser; Xml::Element element;
+      // ONE parser object per execution, used for every document (state of an earlier document must not leak into a later one)
+      if(!g_parser) g_parser = new Xml::Parser;
+      Xml::Parser& parser = *g_parser; Xml::Element element;
       String text; text.attach((const char*)d, n);       // views the exact-size terminated copy
       ok = parser.parse(text, element) ? 1 : 0;
       if(!ok) { line = parser.getErrorLine(); col = parser.getErrorColumn(); }
